@@ -13,7 +13,11 @@
 (***************************************************************************)
 EXTENDS Integers, Sequences, FiniteSets, Rat
 
-CONSTANTS Assets, Lookbacks, Prices, EntryAt, MaxTicks
+CONSTANTS Assets, Lookbacks, Prices, EntryAt, MaxTicks,
+          AssetOrder,   \* the universe's own (deterministic) iteration order: a sequence over Assets
+          HashOrder     \* TRUE: newly entered assets are appended in ANY order ( list(set(...) - set(...)) iterates a
+                        \* Python set, whose order depends on the interpreter's string-hash seed); FALSE: in the
+                        \* universe's own order
 
 Kinds == {"mom", "sma", "vol"}
 Cap(k, n) == IF k = "sma" THEN n ELSE n + 1         \* deque(maxlen=...): momentum and volatility are bumped
@@ -55,8 +59,7 @@ EmptyWins == [k \in Kinds |-> [n \in Lookbacks |-> << >>]]
 
 Init ==
   /\ tick = 0
-  /\ \E order \in { s \in [1..Cardinality({a \in Assets : InUniverse(a, 0)}) -> Assets] :
-                      { s[i] : i \in DOMAIN s } = {a \in Assets : InUniverse(a, 0)} } : tracked = order
+  /\ tracked = SelectSeq(AssetOrder, LAMBDA a : InUniverse(a, 0))          \* universe.get_assets(start)
   /\ win = [a \in {x \in Assets : InUniverse(x, 0)} |-> EmptyWins]
   /\ stream = [a \in {x \in Assets : InUniverse(x, 0)} |-> << >>]
   /\ sig = SigOf(win)
@@ -66,8 +69,10 @@ Update(px) ==
   /\ tick < MaxTicks
   /\ tick' = tick + 1
   /\ LET newly == { a \in Assets : InUniverse(a, tick + 1) } \ TrackedSet
-     IN  \E order \in { s \in [1..Cardinality(newly) -> newly] : { s[i] : i \in DOMAIN s } = newly } :
-           tracked' = tracked \o order       \* list(set(...) - set(...)): ANY order (see C18)
+     IN  IF HashOrder
+         THEN \E order \in { s \in [1..Cardinality(newly) -> newly] : { s[i] : i \in DOMAIN s } = newly } :
+                tracked' = tracked \o order
+         ELSE tracked' = tracked \o SelectSeq(AssetOrder, LAMBDA a : a \in newly)
   /\ LET T == { tracked'[i] : i \in 1..Len(tracked') }
      IN  /\ win' = [a \in T |-> [k \in Kinds |-> [n \in Lookbacks |->
                        Push(IF a \in DOMAIN win THEN win[a][k][n] ELSE << >>, px[a], Cap(k, n))]]]
@@ -95,6 +100,11 @@ C16_Cadence ==
   /\ \A a \in Assets : (a \in DOMAIN stream) = (a \in TrackedSet)
   /\ \A a \in Assets : a \in TrackedSet <=> InUniverse(a, tick)
   /\ \A a \in DOMAIN stream : Len(stream[a]) = tick - (IF EntryAt[a] = 0 THEN 0 ELSE EntryAt[a] - 1)
+\* C18: the order in which the signals track assets (which a ranking alpha model uses to break ties) is a
+\* function of the configuration, not of a set's iteration order
+C18_TrackedOrder ==
+  [][ tracked' = tracked \o SelectSeq(AssetOrder, LAMBDA a : InUniverse(a, tick + 1) /\ a \notin TrackedSet) ]_vars
+
 \* lookbacks and assets never influence each other
 C16_Independent ==
   [][ \A a \in DOMAIN win : \A k \in Kinds : \A n \in Lookbacks :
